@@ -26,14 +26,15 @@ SeqEq(a, b) == Len(a) = Len(b) /\ \A x \in 1..Len(a) : a[x] = b[x]
 (* <<>> if the observation is allowed, else <<got, why>>:
    got "a" accepted what must be rejected (why = the rule), "r" rejected what must be
    accepted, "consumed" / "value" / "reencode" wrong result of an acceptance *)
-Problem(j, r, valueok) ==
+ProblemR(j, r, valueok, needre) ==
   IF j.v = "r" /\ r.acc THEN <<"a", j.why>>
   ELSE IF j.v = "a" /\ ~r.acc THEN <<"r", "">>
   ELSE IF ~r.acc THEN <<>>
   ELSE IF r.n # j.n THEN <<"consumed", "">>
   ELSE IF ~valueok THEN <<"value", "">>
-  ELSE IF ~r.reok \/ ~SeqEq(r.re, DTake(r.b, j.n)) THEN <<"reencode", "">>
+  ELSE IF needre /\ (~r.reok \/ ~SeqEq(r.re, DTake(r.b, j.n))) THEN <<"reencode", "">>
   ELSE <<>>
+Problem(j, r, valueok) == ProblemR(j, r, valueok, TRUE)
 
 Check(r) ==
   LET s == r.b IN
@@ -54,6 +55,10 @@ Check(r) ==
          LET f == Framed(s, r.tagbyte)
              g == GTInfo(f.c) IN
          Problem(TimeJudgeF(f, g), r, SeqEq(r.t, g.t))
+    [] r.k = "utc" ->      \* no re-encoding demanded without seconds / when the codec has no encoder
+         LET f == Framed(s, r.tagbyte)
+             u == UTInfo(f.c) IN
+         ProblemR(UTimeJudgeF(f, u), r, SeqEq(r.t, u.t), ~u.nore /\ ~r.nore)
     [] r.k = "hdr" ->
          LET e == Elem(s, "strict") IN
          Problem(HdrJudgeE(e, r.cls), r,
